@@ -41,12 +41,16 @@ class Ctx:
         self.prop, self.tier, self.seed = prop, tier, seed
         self.rng = random.Random(f"{prop}-{seed}")
         self.t0 = time.time()
-        self.budget = float(os.environ.get("VERIF_BUDGET", 75 if tier == "quick" else 780))
+        self.budget = float(os.environ.get("VERIF_BUDGET", 60 if tier == "quick" else 780))
         self.stats = {}
         self.notes = []
 
+    def start_budget(self):
+        """the wall-clock budget covers the correspondence phase (the Lean stage has its own time-outs)"""
+        self.t_corr = time.time()
+
     def left(self):
-        return self.budget - (time.time() - self.t0)
+        return self.budget - (time.time() - getattr(self, "t_corr", self.t0))
 
     def count(self, key, n=1):
         self.stats[key] = self.stats.get(key, 0) + n
@@ -258,7 +262,8 @@ def write_replay(prop, payload):
 
 
 def write_evidence(prop, ev):
-    d = os.path.join(VERIF, "evidence")
+    # debugging / seeded-change runs must not overwrite the evidence that gets committed
+    d = os.environ.get("VERIF_EVIDENCE_DIR") or os.path.join(VERIF, "evidence")
     os.makedirs(d, exist_ok=True)
     json.dump(ev, open(os.path.join(d, prop + ".json"), "w"), indent=1, default=str)
 
